@@ -30,21 +30,21 @@ PY = "/venv/bin/python"
 
 # file -> properties whose statement is anchored in (or directly depends on) that file, in the order they are tried
 FILE_PROPS = {
-    "persim/bottleneck.py": ["C01", "C06", "C07", "C19"],
-    "persim/wasserstein.py": ["C02", "C06", "C07", "C19"],
+    "persim/bottleneck.py": ["C06", "C01", "C07"],
+    "persim/wasserstein.py": ["C06", "C02", "C07"],
     "persim/heat.py": ["C14", "C19"],
     "persim/sliced_wasserstein.py": ["C15", "C19"],
     "persim/persistent_entropy.py": ["C16", "C19"],
-    "persim/gromov_hausdorff.py": ["C05", "C17", "C19"],
-    "persim/images.py": ["C04", "C11", "C12", "C18", "C19"],
-    "persim/images_kernels.py": ["C13", "C04", "C11"],
-    "persim/images_weights.py": ["C04", "C11", "C19"],
+    "persim/gromov_hausdorff.py": ["C17", "C05"],
+    "persim/images.py": ["C12", "C04", "C11", "C18"],
+    "persim/images_kernels.py": ["C13", "C04"],
+    "persim/images_weights.py": ["C04", "C19"],
     "persim/visuals.py": ["C20", "C19"],
-    "persim/landscapes/exact.py": ["C03", "C09", "C10", "C08", "C19"],
-    "persim/landscapes/approximate.py": ["C08", "C09", "C10", "C18", "C19"],
+    "persim/landscapes/exact.py": ["C03", "C09", "C10"],
+    "persim/landscapes/approximate.py": ["C08", "C09", "C10"],
     "persim/landscapes/auxiliary.py": ["C09", "C10", "C08"],
-    "persim/landscapes/tools.py": ["C08", "C09", "C19"],
-    "persim/landscapes/transformer.py": ["C18", "C08", "C19"],
+    "persim/landscapes/tools.py": ["C08", "C09"],
+    "persim/landscapes/transformer.py": ["C18", "C08"],
     "persim/landscapes/base.py": ["C10", "C03", "C09"],
     "persim/landscapes/visuals.py": ["C20", "C19"],
 }
@@ -352,7 +352,7 @@ def cmd_checks(a):
                 if only and pid not in only:
                     continue
                 env = dict(os.environ, PERSIM_VERIF_ROOT=root, PV_REPLAY_DIR=os.path.join(scratch, "replays"), PV_FAIL_FAST="1", PV_NO_SHRINK="1",
-                           PV_CASE_TIME_LIMIT="30")
+                           PV_CASE_TIME_LIMIT="30", PV_BUDGET_SCALE=os.environ.get("PV_BUDGET_SCALE", "0.5"))
                 try:
                     r = subprocess.run([os.path.join(VERIF, "check"), pid, "--tier", "quick", "--no-evidence"], env=env, capture_output=True, text=True, timeout=1500)
                     sigs = [l.strip()[:200] for l in r.stdout.splitlines() if l.startswith("  ")][:2]
